@@ -194,20 +194,21 @@ func (s *Service) Message(ctx context.Context, duty *synccommitteemessenger.Duty
 
 	s.UpdateSyncCommitteeDataRecord(duty.Slot(), *beaconBlockRoot, duty.ContributionIndices())
 
-	// Create a fixed size array so that we can map each signature to the corresponding account.
-	accounts := make([]e2wtypes.Account, len(validatorIndices))
-	countActive := 0
+	// Gather the accounts for which we can sign, keeping track of the validator index of each
+	// so that we can map each signature to the corresponding validator.
+	accounts := make([]e2wtypes.Account, 0, len(validatorIndices))
+	accountValidatorIndices := make([]phase0.ValidatorIndex, 0, len(validatorIndices))
 	for i := range validatorIndices {
 		account := duty.Account(validatorIndices[i])
 		if account == nil {
 			s.log.Debug().Msg("Account nil; likely exited validator still in sync committee")
 			continue
 		}
-		countActive++
-		accounts[i] = account
+		accounts = append(accounts, account)
+		accountValidatorIndices = append(accountValidatorIndices, validatorIndices[i])
 	}
 	// Return early if we have no active accounts.
-	if countActive == 0 {
+	if len(accounts) == 0 {
 		return msgs, nil
 	}
 
@@ -217,31 +218,32 @@ func (s *Service) Message(ctx context.Context, duty *synccommitteemessenger.Duty
 		return nil, errors.Wrap(err, "failed to sign sync committee messages")
 	}
 
-	for i, account := range accounts {
-		if account == nil {
-			continue
-		}
+	for i := range accounts {
 		signature := sigs[i]
 		if signature.IsZero() {
+			// Carry on with the other validators.
 			s.log.Error().
 				Uint64("slot", uint64(duty.Slot())).
-				Uint64("validator_index", uint64(validatorIndices[i])).
+				Uint64("validator_index", uint64(accountValidatorIndices[i])).
 				Msg("Failed to sign sync committee message; received zero signature")
-			return nil, errors.New("failed to sign sync committee message; received zero signature")
+			continue
 		}
 		s.log.Trace().
 			Uint64("slot", uint64(duty.Slot())).
-			Uint64("validator_index", uint64(validatorIndices[i])).
+			Uint64("validator_index", uint64(accountValidatorIndices[i])).
 			Stringer("signature", signature).
 			Msg("Signed sync committee message")
 
 		msg := &altair.SyncCommitteeMessage{
 			Slot:            duty.Slot(),
 			BeaconBlockRoot: *beaconBlockRoot,
-			ValidatorIndex:  validatorIndices[i],
+			ValidatorIndex:  accountValidatorIndices[i],
 			Signature:       signature,
 		}
 		msgs = append(msgs, msg)
+	}
+	if len(msgs) == 0 {
+		return nil, errors.New("failed to sign sync committee messages; received no signatures")
 	}
 
 	if err := s.syncCommitteeMessagesSubmitter.SubmitSyncCommitteeMessages(ctx, msgs); err != nil {
